@@ -66,6 +66,9 @@ type c19Sel struct {
 	MaxInputs int        `json:"max_inputs"`
 	MinChange int64      `json:"min_change"`
 	MinAvg    int64      `json:"min_avg_valueage_per_input"` // min-priority selector only
+	// Earlier: an earlier CoinSelect call (target = the list's total) made with the SAME selector
+	// value on this other list before the call under test; a selection must not depend on it
+	Earlier [][2]int64 `json:"earlier_call_coins,omitempty"`
 }
 
 var (
@@ -131,6 +134,15 @@ func c19EvalSel(w *mc.W, cas c19Sel) {
 		panic("c19: unknown selector " + cas.Sel)
 	}
 	s := cas.Sel
+	if len(cas.Earlier) > 0 {
+		var el []coinset.Coin
+		tot := int64(0)
+		for i, vc := range cas.Earlier {
+			el = append(el, c19NewCoin(100+i, vc[0], vc[1]))
+			tot += vc[0]
+		}
+		mc.Guard(func() { sel.CoinSelect(bchutil.Amount(tot), el) })
+	}
 	w.Eval()
 	var res coinset.Coins
 	var err error
@@ -595,7 +607,11 @@ func runC19(c *mc.Ctx) {
 		// 6 such coins x boundary targets (each value, each prefix sum, the total, each +-1) x MaxInputs
 		{
 			bigKinds := [][2]int64{{1<<31 - 1, 1}, {1 << 31, 2}, {1<<32 + 1, 0}, {1000000000000, 1000000}, {700000000000000, 3}, {2100000000000000, 1},
-				{30000000000000, 10000}, {10000000000000, 10000}} // value-ages of 3e17 and 1e17 (beyond 2^53)
+				{30000000000000, 10000}, {10000000000000, 10000}, // value-ages of 3e17 and 1e17 (beyond 2^53)
+				// value-ages above 2^53 that differ by 1, by 4, or not at all while the values differ
+				// (K = 2^27: K*K, (K+1)(K-1) = K^2-1, (K-1)(K+1) = K^2-1, (K+2)(K-2) = K^2-4): a comparison
+				// made in floating point cannot tell them apart
+				{1 << 27, 1 << 27}, {1<<27 + 1, 1<<27 - 1}, {1<<27 - 1, 1<<27 + 1}, {1<<27 + 2, 1<<27 - 2}}
 			var cs []c19Sel
 			var lists [][][2]int64
 			for a := range bigKinds {
@@ -662,7 +678,7 @@ func runC19(c *mc.Ctx) {
 					}
 				}
 			}
-			c.Space("large-magnitude coins: lists of <= 3 over 6 kinds x boundary targets x MaxInputs x MinChange (x MinAvg)", int64(len(cs)))
+			c.Space("large-magnitude coins: lists of <= 3 over 12 kinds (incl. value-ages above 2^53 that differ by 0, 1 and 4) x boundary targets x MaxInputs x MinChange (x MinAvg)", int64(len(cs)))
 			c.ParFor(int64(len(cs)), func(w *mc.W, i int64) {
 				w.State()
 				c19EvalSel(w, cs[i])
@@ -701,6 +717,41 @@ func runC19(c *mc.Ctx) {
 				c19EvalSel(w, cs[i])
 			})
 		}
+	}
+	// the same selector value used twice: every list of length <= 3, boundary targets, after an
+	// earlier call on another list (its reverse plus a larger coin; a single coin)
+	{
+		nl := int64(0)
+		for n, sz := 0, int64(1); n <= 3; n, sz = n+1, sz*kinds {
+			nl += sz
+		}
+		var ecalls atomic.Int64
+		c.ParFor(nl, func(w *mc.W, i int64) {
+			list := c19ListAt(i)
+			if len(list) == 0 {
+				return
+			}
+			sum, rev := int64(0), make([][2]int64, 0, len(list)+1)
+			for k := len(list) - 1; k >= 0; k-- {
+				rev = append(rev, list[k])
+				sum += list[k][0]
+			}
+			rev = append(rev, [2]int64{7, 2})
+			n := int64(0)
+			for _, sel := range c19Selectors {
+				for _, tgt := range []int64{list[0][0], sum, sum - 1} {
+					for _, mi := range []int{1, len(list)} {
+						for _, earlier := range [][][2]int64{rev, {{2, 1}}} {
+							w.State()
+							c19EvalSel(w, c19Sel{Sel: sel, Coins: list, Target: tgt, MaxInputs: mi, MinAvg: 1, Earlier: earlier})
+							n++
+						}
+					}
+				}
+			}
+			ecalls.Add(n)
+		})
+		c.Space("CoinSelect calls preceded by an earlier call on the same selector value with another list", ecalls.Load())
 	}
 	c.Sample("sel", c19Sel{Sel: "minpriority", Coins: [][2]int64{{1, 0}, {2, 1}, {5, 2}}, Target: 3, MaxInputs: 2, MinChange: 1, MinAvg: 2})
 	c.Sample("sel", c19Sel{Sel: "minnumber", Coins: [][2]int64{{2, 0}, {2, 1}, {3, 2}}, Target: 5, MaxInputs: 2, MinChange: 0})
